@@ -124,10 +124,11 @@ def run_lp(spec, opts, workdir, rng, inject=True, noise=True, second_side=None,
     TAP.faults = faults
     TAP.time_limit = time_limit
     TAP.force_options = cbc_options
-    real_dt = getattr(solver_mod, 'datetime', None)
+    undo_clock = None
     if clock is not None:
+        from .taps import install_clock
         TAP.clock = clock
-        solver_mod.datetime = clock
+        undo_clock = install_clock(clock)
         ex['_t0'] = clock.t
     try:
         try:
@@ -191,7 +192,8 @@ def run_lp(spec, opts, workdir, rng, inject=True, noise=True, second_side=None,
                     break
     finally:
         TAP.enabled = False
-        solver_mod.datetime = real_dt
+        if undo_clock is not None:
+            undo_clock()
     return ex
 
 
